@@ -27,6 +27,7 @@ import (
 	"mellium.im/xmlstream"
 	"mellium.im/xmpp"
 	"mellium.im/xmpp/ibb"
+	"mellium.im/xmpp/jid"
 	"mellium.im/xmpp/mux"
 	"mellium.im/xmpp/stanza"
 	"verifharness/hx"
@@ -787,4 +788,347 @@ var iwCorpus = [][]iwAction{
 	{{Op: "close"}, {Op: "write"}},
 	// ordinary order
 	{{Op: "write"}, {Op: "wgo"}, {Op: "ack"}, {Op: "again"}, {Op: "write"}, {Op: "wgo"}, {Op: "ack"}, {Op: "close"}},
+}
+
+// ---------------------------------------------------------------------------
+// 3. ibb: the table of expected sessions (Listener.Expect / handleOpen)
+// ---------------------------------------------------------------------------
+
+type exAction struct {
+	Op string `json:"op"` // expect cancel open accept snap
+	I  int    `json:"i,omitempty"`
+}
+
+type exCase struct {
+	Mode    string     `json:"mode"` // ibb-expect-table
+	Actions []exAction `json:"actions"`
+}
+
+type exCall struct {
+	a      *actor
+	cancel context.CancelFunc
+	ret    chan struct{}
+	pos    string // wait ret
+	conn   net.Conn
+	err    error
+}
+
+type exRun struct {
+	base
+	l        *ibb.Listener
+	calls    []*exCall
+	owner    int    // the call whose entry is in the table (-1: none)
+	spos     string // idle accept
+	opened   bool
+	pendingA int // Accept calls waiting
+	accepted int
+	acc      chan net.Conn
+}
+
+func newExRun() (*exRun, error) {
+	x := &exRun{owner: -1, spos: "idle", acc: make(chan net.Conn, 8)}
+	h := &ibb.Handler{}
+	if err := x.start(nil, []string{"serve.iter"}, mux.New(stanza.NSClient, ibb.Handle(h))); err != nil {
+		return nil, err
+	}
+	x.l = h.Listen(x.s)
+	return x, nil
+}
+
+func (x *exRun) enabled(a exAction) bool {
+	switch a.Op {
+	case "expect":
+		return len(x.calls) < 4 && !x.opened
+	case "cancel":
+		return a.I >= 0 && a.I < len(x.calls) && x.calls[a.I].pos == "wait"
+	case "open":
+		return !x.opened && x.spos == "idle"
+	case "accept":
+		return x.pendingA == 0 && x.accepted == 0
+	case "snap":
+		return true
+	}
+	return false
+}
+
+// returned waits for call i to return with the context error after its context ended.
+func (x *exRun) returned(i int, why string) bool {
+	c := x.calls[i]
+	select {
+	case <-c.ret:
+	case <-time.After(watchdog):
+		x.fail("C06/ibb-expect/call-never-returns", fmt.Sprintf("Expect call %d did not return after %s", i, why))
+		return false
+	}
+	c.pos = "ret"
+	if !errors.Is(c.err, context.Canceled) {
+		x.fail("C06/ibb-expect/wrong-outcome", fmt.Sprintf("Expect call %d returned (%v, %v) after %s", i, c.conn != nil, c.err, why))
+		return false
+	}
+	x.label("ECtx %d%%nat", i)
+	x.label("ECleanup %d%%nat", i)
+	return true
+}
+
+func (x *exRun) do(a exAction) {
+	if x.failed || !x.enabled(a) {
+		return
+	}
+	switch a.Op {
+	case "expect":
+		i := len(x.calls)
+		c := &exCall{a: newActor(fmt.Sprintf("expect%d", i)), ret: make(chan struct{}), pos: "wait"}
+		var ctx context.Context
+		ctx, c.cancel = context.WithCancel(context.Background())
+		x.calls = append(x.calls, c)
+		go func() {
+			x.g.bind(c.a)
+			c.conn, c.err = x.l.Expect(ctx, jid.MustParse(peerFull), "sx")
+			close(c.ret)
+		}()
+		if !waitBlocked(c.a, watchdog, "select") {
+			x.fail("C06/harness/unexpected-step", "Expect did not block in its select")
+			return
+		}
+		x.label("EStart")
+		if old := x.owner; old >= 0 {
+			// the documented take-over: the call whose entry was there is cancelled
+			x.classes["take-over"] = true
+			if !x.returned(old, "a second Expect call for the same session took over") {
+				return
+			}
+		}
+		x.owner = i
+	case "cancel":
+		c := x.calls[a.I]
+		c.cancel()
+		x.label("ECancel %d%%nat", a.I)
+		if !x.returned(a.I, "its context was cancelled") {
+			return
+		}
+		if x.owner == a.I {
+			x.owner = -1
+		}
+		x.classes["cancel"] = true
+	case "open":
+		x.opened = true
+		open := `<iq type="set" id="ox" from="` + peerFull + `" to="` + x.s.LocalAddr().String() + `"><open xmlns="http://jabber.org/protocol/ibb" sid="sx" block-size="4096" stanza="iq"/></iq>`
+		if err := x.p.Send([]byte(open)); err != nil {
+			x.fail("C06/ibb/serve-stall:not-reading", err.Error())
+			return
+		}
+		x.label("OArrive")
+		if j := x.owner; j >= 0 {
+			// a live Expect call waits for exactly this session: it must get it
+			if waitBlockedOrEvent(x.serve, watchdog, "chan send") {
+				x.fail("C06/ibb-expect/handler-stall:entry-removed-by-other-call", fmt.Sprintf("Expect call %d is waiting for this session with a live context, but its entry is gone (removed by another Expect call that gave up): the open request is handed to Accept instead, nobody accepts, the open is never answered and the serve loop is blocked", j))
+				return
+			}
+			c := x.calls[j]
+			select {
+			case <-c.ret:
+			case <-time.After(watchdog):
+				x.fail("C06/ibb-expect/open-not-delivered", fmt.Sprintf("the serve loop went on but Expect call %d did not get the stream it waits for", j))
+				return
+			}
+			c.pos = "ret"
+			if c.err != nil || c.conn == nil {
+				x.fail("C06/ibb-expect/wrong-outcome", fmt.Sprintf("Expect call %d returned (%v, %v) for the open request it waited for", j, c.conn != nil, c.err))
+				return
+			}
+			x.owner = -1
+			x.label("ODeliver %d%%nat", j)
+			x.classes["delivered"] = true
+			return
+		}
+		if x.pendingA > 0 {
+			select {
+			case <-x.acc:
+			case <-time.After(watchdog):
+				x.fail("C06/ibb-accept/stream-lost", "a pending Accept call did not get the stream nobody expects")
+				return
+			}
+			x.pendingA--
+			x.accepted++
+			x.label("AAccept")
+			if x.expect(x.serve, "C06/ibb/handler-stall:open", "C06/ibb-close/handler-panic", "the open handler did not return after Accept took the stream", "@serve.iter") == "" {
+				return
+			}
+			return
+		}
+		if !waitBlockedOrEvent(x.serve, watchdog, "chan send") {
+			x.fail("C06/ibb-expect/phantom-receiver", "nobody expects or accepts the stream, yet the open handler handed it to somebody")
+			return
+		}
+		x.spos = "accept"
+	case "accept":
+		go func() { c, _ := x.l.Accept(); x.acc <- c }()
+		if x.spos == "accept" {
+			select {
+			case <-x.acc:
+			case <-time.After(watchdog):
+				x.fail("C06/ibb-accept/stream-lost", "Accept did not get the stream that waits for it")
+				return
+			}
+			x.accepted++
+			x.label("AAccept")
+			x.spos = "idle"
+			if x.expect(x.serve, "C06/ibb/handler-stall:open", "C06/ibb-close/handler-panic", "the open handler did not return after Accept took the stream", "@serve.iter") == "" {
+				return
+			}
+		} else {
+			x.pendingA++
+		}
+	}
+}
+
+func (x *exRun) finish() {
+	for i, c := range x.calls {
+		if c.pos == "wait" {
+			x.do(exAction{Op: "cancel", I: i})
+		}
+	}
+	if x.spos == "accept" && x.enabled(exAction{Op: "accept"}) {
+		x.do(exAction{Op: "accept"})
+	}
+	if x.failed {
+		return
+	}
+	if x.spos != "idle" {
+		x.fail("C06/ibb/serve-stall:"+x.spos, "the serve loop is still busy with the open request")
+		return
+	}
+	if err := x.p.Send([]byte(`<message id="sentinel" from="` + peerFull + `"><body>x</body></message>`)); err != nil {
+		x.fail("C06/ibb/serve-stall:not-reading", err.Error())
+		return
+	}
+	x.expect(x.serve, "C06/ibb/serve-stall:sentinel", "C06/ibb-close/handler-panic", "the serve loop did not process the final element", "@serve.iter")
+}
+
+func (x *exRun) coqCase() (string, map[string]interface{}) {
+	var codes []string
+	for _, c := range x.calls {
+		switch {
+		case c.pos == "wait":
+			codes = append(codes, "0%nat")
+		case c.err == nil:
+			codes = append(codes, "1%nat")
+		default:
+			codes = append(codes, "2%nat")
+		}
+	}
+	h := 0
+	if x.spos == "accept" {
+		h = 2
+	}
+	return fmt.Sprintf("mkexcase [%s] [%s] %d%%nat %d%%nat", x.labelString(), strings.Join(codes, ";"), h, x.accepted),
+		map[string]interface{}{"codes": codes, "h": h, "accepted": x.accepted}
+}
+
+func (x *runner) exEmit(run *exRun, acts []exAction, note string) {
+	term, o := run.coqCase()
+	x.ex.Add(term, map[string]interface{}{"case": exCase{Mode: "ibb-expect-table", Actions: append([]exAction(nil), acts...)}, "observed": o, "labels": run.labels, "note": note})
+}
+
+func (x *runner) exFinish(run *exRun, acts []exAction, class string) {
+	run.finish()
+	x.noteSlow("ibb-expect-table", run.failed, run.failWhat)
+	cc := exCase{Mode: "ibb-expect-table", Actions: acts}
+	canon, _ := json.Marshal(cc)
+	cls := []string{"ibb-expect-table/" + class}
+	for c := range run.classes {
+		cls = append(cls, "ibb-expect-table/saw-"+c)
+	}
+	x.res.Count(string(canon), run.classes["take-over"] || run.classes["cancel"] || run.classes["delivered"], cls...)
+	if run.failed {
+		x.res.Fail(run.failKey, run.failWhat, cc)
+	} else {
+		x.exEmit(run, acts, "final")
+	}
+	for _, c := range run.calls {
+		c.cancel()
+	}
+	run.stop()
+}
+
+func (x *runner) exReplay(acts []exAction, class string) {
+	if x.skip("ibb-expect-table") && class != "replay" {
+		return
+	}
+	setCurrent(exCase{Mode: "ibb-expect-table", Actions: acts})
+	run, err := newExRun()
+	if err != nil {
+		x.res.Fail("C06/harness/setup", err.Error(), nil)
+		return
+	}
+	for _, a := range acts {
+		run.do(a)
+		if a.Op == "snap" && !run.failed {
+			x.exEmit(run, acts, "snapshot")
+		}
+	}
+	x.exFinish(run, acts, class)
+}
+
+func (x *runner) exWalk(r *hx.Rand, steps int) {
+	if x.skip("ibb-expect-table") {
+		return
+	}
+	run, err := newExRun()
+	if err != nil {
+		x.res.Fail("C06/harness/setup", err.Error(), nil)
+		return
+	}
+	var acts []exAction
+	for k := 0; k < steps && !run.failed; k++ {
+		var cs []exAction
+		var ws []int
+		add := func(a exAction, w int) {
+			if run.enabled(a) {
+				cs, ws = append(cs, a), append(ws, w)
+			}
+		}
+		add(exAction{Op: "expect"}, 4)
+		for i := range run.calls {
+			add(exAction{Op: "cancel", I: i}, 2)
+		}
+		add(exAction{Op: "open"}, 2)
+		add(exAction{Op: "accept"}, 1)
+		add(exAction{Op: "snap"}, 1)
+		tot := 0
+		for _, w := range ws {
+			tot += w
+		}
+		pick := r.Intn(tot)
+		var a exAction
+		for j, w := range ws {
+			if pick < w {
+				a = cs[j]
+				break
+			}
+			pick -= w
+		}
+		acts = append(acts, a)
+		setCurrent(exCase{Mode: "ibb-expect-table", Actions: acts})
+		run.do(a)
+		if a.Op == "snap" && !run.failed {
+			x.exEmit(run, acts, "snapshot")
+		}
+	}
+	x.exFinish(run, acts, "walk")
+}
+
+var exCorpus = [][]exAction{
+	// a second Expect takes over; the cancelled first one gives up; then the peer opens
+	{{Op: "expect"}, {Op: "expect"}, {Op: "snap"}, {Op: "open"}},
+	// the first one is cancelled by its caller, then a second Expect, then the open
+	{{Op: "expect"}, {Op: "cancel", I: 0}, {Op: "expect"}, {Op: "open"}},
+	// take-over, then the second one is cancelled too: the open goes to a pending Accept
+	{{Op: "accept"}, {Op: "expect"}, {Op: "expect"}, {Op: "cancel", I: 1}, {Op: "open"}},
+	// three in a row
+	{{Op: "expect"}, {Op: "expect"}, {Op: "expect"}, {Op: "open"}},
+	// plain
+	{{Op: "expect"}, {Op: "open"}},
+	// nobody expects: the open waits for Accept
+	{{Op: "expect"}, {Op: "cancel", I: 0}, {Op: "open"}, {Op: "snap"}, {Op: "accept"}},
 }
